@@ -143,3 +143,52 @@ def iter_paths_agree(t0: str, t1: str, t2: str, t3: str) -> bool:
         if p != '.' + n.path[len(root.path):]:
             return False
     return seen == len(by_elem)
+
+
+# --- added after round-2 seeded changes: lxml documents with comments / PIs as siblings of the root element -----------------------------
+
+try:
+    import lxml.etree as LX
+except ImportError:        # pragma: no cover
+    LX = None
+
+
+def _pick(n, top):
+    """concrete value of a symbolic count on each path"""
+    for k in range(top + 1):
+        if n == k:
+            return k
+    return top
+
+
+@ob(budget=300, bound='lxml document: 0..2 comments and 0..1 PI before the root element, 0..1 comment after it, 0..2 comments inside the root, '
+                      '0..1 comment inside its child (counts chosen by the solver; lxml is C code: the trees themselves are concrete on '
+                      'each path): every node path is unique, evaluates as XPath 3.1 to exactly that node, and equals fn:path()',
+    funcs=[N + ':CommentNode.path', N + ':ProcessingInstructionNode.path', N + ':ElementNode.path', 'elementpath/tree_builders.py:build_lxml_node_tree',
+           'elementpath/xpath30/_xpath30_functions.py:evaluate__path'])
+def lxml_document_level_siblings(nb: int, pb: int, na: int, ni: int, nc: int) -> bool:
+    """
+    pre: 0 <= nb <= 2 and 0 <= pb <= 1 and 0 <= na <= 1 and 0 <= ni <= 2 and 0 <= nc <= 1
+    post: _
+    """
+    if LX is None:
+        return True
+    nb, pb, na, ni, nc = _pick(nb, 2), _pick(pb, 1), _pick(na, 1), _pick(ni, 2), _pick(nc, 1)
+    text = '<!--b-->' * nb + '<?p q?>' * pb + '<r>' + '<!--i-->' * ni + '<x>' + '<!--c-->' * nc + 't</x>' + '<?p z?>' + '</r>' + '<!--a-->' * na
+    doc = LX.fromstring(text).getroottree()
+    ctx = XPathContext(doc)
+    nodes = [n for n in _walk(ctx.root) if not isinstance(n, DocumentNode)]
+    if len(nodes) != nb + pb + na + ni + nc + 4:
+        return False
+    paths = [n.path for n in nodes]
+    if len(set(paths)) != len(paths):
+        return False
+    for n, p in zip(nodes, paths):
+        got = L(P31.parse(p).evaluate(XPathContext(ctx.root)))
+        if len(got) != 1 or got[0] is not n:
+            return False
+        fp = T_PATH.evaluate(XPathContext(ctx.root, item=n))
+        fp = fp[0] if isinstance(fp, list) and len(fp) == 1 else fp
+        if fp != p:
+            return False
+    return True
